@@ -1,5 +1,6 @@
 import EvermintModel.Model.Block
 import EvermintModel.Model.Bloom
+import EvermintModel.Model.CreateAddr
 import Driver.Common
 namespace Driver.Block
 open Evermint Evermint.Block
@@ -76,6 +77,11 @@ def step (s : BState) (toks : List String) : BState × String :=
       nonce := kvNat rest "nonce" }
     let (s', o) := stepCos s t (kvNat rest "ok" == 1) (kvNat rest "gu")
     (s', showCos o)
+  | ["caddr", sender, nonce] =>
+    -- the CREATE address of (sender, nonce): keccak256(rlp([sender, nonce]))[12:], RLP and Keccak-256 in Lean
+    match Evermint.Keccak.ofHex sender, nonce.toNat? with
+    | some a, some n => if a.length == 20 then (s, Evermint.Keccak.toHex (Evermint.CreateAddr.createAddress Evermint.Keccak.keccak256 a n)) else (s, "bad-op")
+    | _, _ => (s, "bad-op")
   | ["bloom", enc] =>
     -- receipts `;` logs `|` items `,` (hex); every receipt's bloom from its own logs and the block bloom, with Keccak-256
     let parseLog (l : String) : Option Evermint.Bloom.Log :=
